@@ -1278,3 +1278,65 @@ def rule_one_count_per_id(ctx):
                 ctx.violated("IDCOUNT", key, f.where(line), "%s can register an id on a path that did not raise the instance's attach count: detaching another handle then ends the attachment this id still uses" % fn)
     ctx.floor("IDCOUNT", 3, n, "(id registrations in Vattach / VSattach)")
     return n
+
+
+def rule_detach_clears_pointer(ctx):
+    """DETACHNULL (C13, C01): several access records on one special element share its information record and count themselves
+    in `->attached`.  The start-access routines of the linked-block and chunked kinds begin with "if this access record still
+    points at an information record, detach from it" (`if (access_rec->special_info != NULL) { if (--(t->attached) == 0) free.. }`).
+    For those kinds every *other* routine that detaches (decrements `->attached` of the same record type) must therefore clear
+    `access_rec->special_info` on every path, not only when it freed the record: Hnextread calls the close routine and then
+    the start-access routine on the same access record, and a pointer left standing is counted out twice - the record is
+    freed while the other access records still read through it."""
+    from .rules_coders import MustStore
+    from .codec import ast_walk
+    from .facts import is_null
+    prog = ctx.prog
+
+    def decrements(f):
+        out = set()
+        for _b, _i, _s, x in f.nodes(True):
+            t = None
+            if x[0] == "incdec" and x[1] == "--":
+                t = strip(x[3])
+            elif x[0] == "asg" and x[1] == "-=":
+                t = strip(x[2])
+            if t is not None and kind(t) == "mem" and t[2] == "attached":
+                out.add(t[3])
+        return out
+
+    redetach = {}
+    for f in prog.lib_funcs():
+        ast = f.raw.get("ast")
+        if not ast:
+            continue
+
+        def vis(nd, st, f=f):
+            if nd[0] == "if" and nd[1] is not None:
+                c = strip(nd[1])
+                if kind(c) == "bin" and c[1] == "!=" and mem_field(c[2]) == ("accrec_t", "special_info") and is_null(c[3]):
+                    inner = []
+                    ast_walk(nd[2], lambda k, s2: (inner.extend(x for x in (walk(k[1], True) if k[0] in ("s", "if") and k[1] is not None else []) if x[0] == "incdec" and x[1] == "--" and kind(strip(x[3])) == "mem" and strip(x[3])[2] == "attached"), True)[1])
+                    for x in inner:
+                        redetach.setdefault(strip(x[3])[3], set()).add(f.name)
+            return True
+
+        ast_walk(ast, vis)
+    n = 0
+    for f in prog.lib_funcs():
+        recs = decrements(f) & set(redetach)
+        for rec in sorted(recs):
+            if f.name in redetach[rec]:
+                continue
+            n += 1
+            key = "DETACHNULL:%s" % f.name
+            a = MustStore(prog, ("accrec_t", "special_info"))
+            a.fails = fail_values(f, prog)
+            a.run(f)
+            ok_exits = [u for cls, u in a.exits if cls != "fail"]
+            if ok_exits and all(ok_exits):
+                ctx.holds("DETACHNULL", key, f.where(), "detaches from a %s and clears access_rec->special_info on every non-failing path (%s re-detaches through a pointer left standing)" % (rec, ", ".join(sorted(redetach[rec]))), nontrivial=True)
+            else:
+                ctx.violated("DETACHNULL", key, f.where(), "decrements %s.attached but leaves access_rec->special_info standing when the record is still shared; %s then detaches through it a second time and frees the record under the other access records" % (rec, ", ".join(sorted(redetach[rec]))))
+    ctx.floor("DETACHNULL", 2, n, "(detaching routines of kinds whose start-access re-detaches)")
+    return n
